@@ -403,418 +403,142 @@ impl SuffixArrayBuilder {
 
     /// SA-IS (Suffix Array by Induced Sorting) algorithm implementation
     fn sais_construct(&self, text: &[u8]) -> Result<Vec<usize>> {
-        // Add recursion depth limit to prevent stack overflow
-        self.sais_construct_with_depth(text, 0)
-    }
-    
-    fn sais_construct_with_depth(&self, text: &[u8], depth: usize) -> Result<Vec<usize>> {
-        // Prevent stack overflow with recursion depth limit
-        const MAX_RECURSION_DEPTH: usize = 100;
-        if depth > MAX_RECURSION_DEPTH {
-            // Fall back to simple sorting for deep recursion
-            return self.fallback_sort(text);
-        }
-        
-        let n = text.len();
-        
         // Guard against excessive memory allocation
         const MAX_TEXT_SIZE: usize = 1 << 30; // 1GB limit
-        if n > MAX_TEXT_SIZE {
+        if text.len() > MAX_TEXT_SIZE {
             return Err(crate::error::ZiporaError::invalid_data(
                 "Text too large for suffix array construction"
             ));
         }
-        
-        // Find alphabet size
-        let alphabet_size = if self.config.optimize_small_alphabet {
-            256 // Full byte alphabet
+
+        let symbols: Vec<usize> = text.iter().map(|&b| b as usize).collect();
+        let upper = if self.config.optimize_small_alphabet {
+            255 // Full byte alphabet
         } else {
-            text.iter().max().unwrap_or(&0).wrapping_add(1) as usize
+            symbols.iter().copied().max().unwrap_or(0)
         };
 
-        // Step 1: Classify suffixes as L-type or S-type
-        let (suffix_types, is_lms) = self.classify_suffixes(text)?;
-
-        // Step 2: Find LMS suffixes
-        let lms_suffixes = self.find_lms_suffixes(&is_lms);
-
-        if lms_suffixes.is_empty() {
-            // All suffixes are L-type (monotonically decreasing string)
-            return Ok((0..n).rev().collect());
-        }
-
-        // Step 3: Sort LMS suffixes
-        let mut sa = vec![0; n];
-        let mut bucket = vec![0; alphabet_size];
-        let mut bucket_heads = vec![0; alphabet_size];
-        let mut bucket_tails = vec![0; alphabet_size];
-
-        // Count character frequencies
-        for &ch in text {
-            bucket[ch as usize] += 1;
-        }
-
-        // Compute bucket boundaries
-        self.compute_bucket_boundaries(&bucket, &mut bucket_heads, &mut bucket_tails);
-
-        // Initialize SA with sentinel values
-        for i in 0..n {
-            sa[i] = n; // Use n as sentinel (invalid index)
-        }
-
-        // Place LMS suffixes at the end of their buckets with bounds checking
-        for &lms_idx in lms_suffixes.iter().rev() {
-            if lms_idx >= text.len() {
-                continue; // Skip invalid indices
-            }
-            let ch = text[lms_idx] as usize;
-            if ch < bucket_tails.len() && bucket_tails[ch] > 0 {
-                bucket_tails[ch] -= 1;
-                if bucket_tails[ch] < sa.len() {
-                    sa[bucket_tails[ch]] = lms_idx;
-                }
-            }
-        }
-
-        // Induce L-type suffixes
-        self.induce_l_type(&mut sa, text, &suffix_types, &bucket_heads)?;
-
-        // Induce S-type suffixes
-        self.induce_s_type(&mut sa, text, &suffix_types, &bucket_tails)?;
-
-        // Step 4: Compact LMS suffixes and check if they're unique
-        let lms_sa = self.compact_lms_suffixes(&sa, &is_lms);
-        let lms_names = self.name_lms_substrings(text, &lms_sa, &lms_suffixes)?;
-
-        // Check if all LMS substrings are unique
-        let max_name = lms_names.iter().max().copied().unwrap_or(0);
-        
-        if (max_name as usize) < lms_suffixes.len() {
-            // Not all LMS substrings are unique, recursively sort them with depth tracking
-            let reduced_sa = self.sais_construct_with_depth(&lms_names, depth + 1)?;
-            
-            // Map back to original indices
-            let mut sorted_lms = Vec::new();
-            for &rank in &reduced_sa {
-                sorted_lms.push(lms_suffixes[rank]);
-            }
-
-            // Rebuild SA with sorted LMS suffixes
-            self.rebuild_sa_with_sorted_lms(text, &sorted_lms, &suffix_types, alphabet_size)
-        } else {
-            // All LMS substrings are unique, SA is complete
-            // Handle any remaining sentinel values by finding missing indices
-            if sa.iter().any(|&x| x >= n) {
-                // Find which indices are missing from the suffix array
-                let mut present = vec![false; n];
-                for &val in sa.iter() {
-                    if val < n {
-                        present[val] = true;
-                    }
-                }
-                
-                let missing_indices: Vec<usize> = (0..n).filter(|&i| !present[i]).collect();
-                let mut missing_iter = missing_indices.into_iter();
-                
-                // Replace sentinel values with missing indices
-                for sa_val in sa.iter_mut() {
-                    if *sa_val >= n {
-                        if let Some(missing_idx) = missing_iter.next() {
-                            *sa_val = missing_idx;
-                        }
-                    }
-                }
-            }
-            
-            Ok(sa)
-        }
+        Ok(Self::sais_core(&symbols, upper))
     }
 
-    /// Classify each suffix as L-type or S-type
-    fn classify_suffixes(&self, text: &[u8]) -> Result<(Vec<bool>, Vec<bool>)> {
-        let n = text.len();
-        let mut suffix_types = vec![false; n]; // false = L-type, true = S-type
-        let mut is_lms = vec![false; n];
-
-        if n == 0 {
-            return Ok((suffix_types, is_lms));
+    /// SA-IS over the integer alphabet `0..=upper`.
+    ///
+    /// The end of the string acts as a virtual sentinel that is smaller than
+    /// every symbol, so the last suffix is L-type and a suffix that is a proper
+    /// prefix of another suffix sorts first. Names of LMS substrings are plain
+    /// `usize` values, so the reduced problem can have any alphabet size.
+    fn sais_core(s: &[usize], upper: usize) -> Vec<usize> {
+        const EMPTY: usize = usize::MAX;
+        let n = s.len();
+        match n {
+            0 => return Vec::new(),
+            1 => return vec![0],
+            2 => return if s[0] < s[1] { vec![0, 1] } else { vec![1, 0] },
+            _ => {}
         }
 
-        // Last suffix is S-type by definition
-        suffix_types[n - 1] = true;
-
-        // Classify suffixes from right to left
+        // is_s[i] == true: suffix i is S-type
+        let mut is_s = vec![false; n];
         for i in (0..n - 1).rev() {
-            if text[i] < text[i + 1] {
-                suffix_types[i] = true; // S-type
-            } else if text[i] > text[i + 1] {
-                suffix_types[i] = false; // L-type
-            } else {
-                // Same character, inherit from next position
-                suffix_types[i] = suffix_types[i + 1];
-            }
+            is_s[i] = if s[i] == s[i + 1] { is_s[i + 1] } else { s[i] < s[i + 1] };
         }
 
-        // Find LMS positions (Left-Most S-type)
-        for i in 1..n {
-            if suffix_types[i] && !suffix_types[i - 1] {
-                is_lms[i] = true;
-            }
-        }
-
-        Ok((suffix_types, is_lms))
-    }
-
-    /// Find all LMS suffix positions
-    fn find_lms_suffixes(&self, is_lms: &[bool]) -> Vec<usize> {
-        is_lms.iter()
-            .enumerate()
-            .filter_map(|(i, &is_lms_pos)| if is_lms_pos { Some(i) } else { None })
-            .collect()
-    }
-
-    /// Compute bucket head and tail positions
-    fn compute_bucket_boundaries(
-        &self,
-        bucket: &[usize],
-        bucket_heads: &mut [usize],
-        bucket_tails: &mut [usize],
-    ) {
-        let mut sum = 0;
-        for i in 0..bucket.len() {
-            bucket_heads[i] = sum;
-            sum += bucket[i];
-            bucket_tails[i] = sum;
-        }
-    }
-
-    /// Induce L-type suffixes from left to right
-    fn induce_l_type(
-        &self,
-        sa: &mut [usize],
-        text: &[u8],
-        suffix_types: &[bool],
-        bucket_heads: &[usize],
-    ) -> Result<()> {
-        let n = text.len();
-        let mut heads = bucket_heads.to_vec();
-
+        // l_start[c]: first slot of bucket c, s_start[c]: first slot of its S-type part
+        let mut l_start = vec![0usize; upper + 2];
+        let mut s_start = vec![0usize; upper + 2];
         for i in 0..n {
-            if sa[i] == n {
-                continue; // Skip sentinel values
-            }
-
-            let j = sa[i];
-            if j > 0 && j <= text.len() && !suffix_types[j - 1] {
-                // Predecessor is L-type
-                if j - 1 < text.len() {
-                    let ch = text[j - 1] as usize;
-                    if ch < heads.len() && heads[ch] < n && heads[ch] < sa.len() {
-                        sa[heads[ch]] = j - 1;
-                        heads[ch] += 1;
-                    }
-                }
+            if is_s[i] {
+                l_start[s[i] + 1] += 1;
+            } else {
+                s_start[s[i]] += 1;
             }
         }
-
-        Ok(())
-    }
-
-    /// Induce S-type suffixes from right to left
-    fn induce_s_type(
-        &self,
-        sa: &mut [usize],
-        text: &[u8],
-        suffix_types: &[bool],
-        bucket_tails: &[usize],
-    ) -> Result<()> {
-        let n = text.len();
-        let mut tails = bucket_tails.to_vec();
-
-        for i in (0..n).rev() {
-            if sa[i] == n {
-                continue; // Skip sentinel values
-            }
-
-            let j = sa[i];
-            if j > 0 && j <= text.len() && suffix_types[j - 1] {
-                // Predecessor is S-type
-                if j - 1 < text.len() {
-                    let ch = text[j - 1] as usize;
-                    if ch < tails.len() && tails[ch] > 0 && tails[ch] <= sa.len() {
-                        tails[ch] -= 1;
-                        if tails[ch] < sa.len() {
-                            sa[tails[ch]] = j - 1;
-                        }
-                    }
-                }
-            }
+        for c in 0..=upper {
+            s_start[c] += l_start[c];
+            l_start[c + 1] += s_start[c];
         }
 
-        Ok(())
-    }
+        let is_lms = |i: usize| i > 0 && is_s[i] && !is_s[i - 1];
+        let lms: Vec<usize> = (1..n).filter(|&i| is_lms(i)).collect();
+        let mut lms_index = vec![EMPTY; n];
+        for (k, &p) in lms.iter().enumerate() {
+            lms_index[p] = k;
+        }
 
-    /// Compact LMS suffixes from the suffix array
-    fn compact_lms_suffixes(&self, sa: &[usize], is_lms: &[bool]) -> Vec<usize> {
-        sa.iter()
-            .filter_map(|&pos| {
-                if pos < is_lms.len() && is_lms[pos] {
-                    Some(pos)
+        // Induced sort from a list of LMS suffixes; the bucket pointers are
+        // rebuilt from l_start / s_start for every pass.
+        let induce = |sa: &mut Vec<usize>, seeds: &[usize]| {
+            for slot in sa.iter_mut() {
+                *slot = EMPTY;
+            }
+            let mut buf = s_start.clone();
+            for &p in seeds {
+                sa[buf[s[p]]] = p;
+                buf[s[p]] += 1;
+            }
+            buf.copy_from_slice(&l_start);
+            // the suffix preceding the virtual sentinel
+            sa[buf[s[n - 1]]] = n - 1;
+            buf[s[n - 1]] += 1;
+            for i in 0..n {
+                let v = sa[i];
+                if v != EMPTY && v >= 1 && !is_s[v - 1] {
+                    sa[buf[s[v - 1]]] = v - 1;
+                    buf[s[v - 1]] += 1;
+                }
+            }
+            buf.copy_from_slice(&l_start);
+            for i in (0..n).rev() {
+                let v = sa[i];
+                if v != EMPTY && v >= 1 && is_s[v - 1] {
+                    buf[s[v - 1] + 1] -= 1;
+                    sa[buf[s[v - 1] + 1]] = v - 1;
+                }
+            }
+        };
+
+        let mut sa = vec![EMPTY; n];
+        induce(&mut sa, &lms);
+
+        let m = lms.len();
+        if m > 0 {
+            // LMS suffixes in the order of their LMS substrings
+            let mut sorted_lms: Vec<usize> = sa.iter().copied()
+                .filter(|&v| v != EMPTY && lms_index[v] != EMPTY)
+                .collect();
+            debug_assert_eq!(sorted_lms.len(), m);
+
+            // Name the LMS substrings (equal substrings share a name)
+            let mut reduced = vec![0usize; m];
+            let mut name = 0usize;
+            for i in 1..m {
+                let (mut l, mut r) = (sorted_lms[i - 1], sorted_lms[i]);
+                let end_l = if lms_index[l] + 1 < m { lms[lms_index[l] + 1] } else { n };
+                let end_r = if lms_index[r] + 1 < m { lms[lms_index[r] + 1] } else { n };
+                let same = if end_l - l != end_r - r {
+                    false
                 } else {
-                    None
-                }
-            })
-            .collect()
-    }
-
-    /// Assign names to LMS substrings based on their lexicographic order
-    fn name_lms_substrings(
-        &self,
-        text: &[u8],
-        lms_sa: &[usize],
-        lms_suffixes: &[usize],
-    ) -> Result<Vec<u8>> {
-        let mut names = vec![0u8; lms_suffixes.len()];
-        let mut current_name = 0u8;
-
-        if !lms_sa.is_empty() {
-            names[0] = current_name;
-
-            for i in 1..lms_sa.len() {
-                if !self.are_lms_substrings_equal(text, lms_sa[i - 1], lms_sa[i], lms_suffixes)? {
-                    current_name = current_name.wrapping_add(1);
-                }
-                
-                // Find position of lms_sa[i] in lms_suffixes with bounds checking
-                if lms_sa[i] < text.len() {
-                    let pos = lms_suffixes.iter().position(|&x| x == lms_sa[i])
-                        .ok_or_else(|| crate::error::ZiporaError::invalid_data("LMS suffix not found"))?;
-                    if pos < names.len() {
-                        names[pos] = current_name;
+                    while l < end_l && s[l] == s[r] {
+                        l += 1;
+                        r += 1;
                     }
-                } else {
-                    return Err(crate::error::ZiporaError::invalid_data("Invalid LMS suffix index"));
+                    // both substrings also include the LMS symbol that ends them
+                    l == end_l && l < n && r < n && s[l] == s[r]
+                };
+                if !same {
+                    name += 1;
                 }
+                reduced[lms_index[sorted_lms[i]]] = name;
             }
-        }
 
-        Ok(names)
-    }
-
-    /// Check if two LMS substrings are equal
-    fn are_lms_substrings_equal(
-        &self,
-        text: &[u8],
-        pos1: usize,
-        pos2: usize,
-        lms_suffixes: &[usize],
-    ) -> Result<bool> {
-        if pos1 >= text.len() || pos2 >= text.len() {
-            return Ok(false);
-        }
-        
-        // Additional safety check for bounds
-        if pos1 == pos2 {
-            return Ok(true);
-        }
-
-        // Find the end of each LMS substring
-        let end1 = self.find_lms_substring_end(pos1, lms_suffixes, text.len());
-        let end2 = self.find_lms_substring_end(pos2, lms_suffixes, text.len());
-
-        let len1 = end1 - pos1;
-        let len2 = end2 - pos2;
-
-        if len1 != len2 {
-            return Ok(false);
-        }
-
-        // Compare character by character with bounds checking
-        for i in 0..len1 {
-            if pos1 + i >= text.len() || pos2 + i >= text.len() {
-                return Ok(false);
+            let reduced_sa = Self::sais_core(&reduced, name);
+            for i in 0..m {
+                sorted_lms[i] = lms[reduced_sa[i]];
             }
-            if text[pos1 + i] != text[pos2 + i] {
-                return Ok(false);
-            }
+            induce(&mut sa, &sorted_lms);
         }
 
-        Ok(true)
-    }
-
-    /// Find the end position of an LMS substring
-    fn find_lms_substring_end(&self, start: usize, lms_suffixes: &[usize], text_len: usize) -> usize {
-        // Find next LMS position after start
-        lms_suffixes.iter()
-            .find(|&&pos| pos > start)
-            .copied()
-            .unwrap_or(text_len)
-    }
-
-    /// Rebuild the suffix array with sorted LMS suffixes
-    fn rebuild_sa_with_sorted_lms(
-        &self,
-        text: &[u8],
-        sorted_lms: &[usize],
-        suffix_types: &[bool],
-        alphabet_size: usize,
-    ) -> Result<Vec<usize>> {
-        let n = text.len();
-        let mut sa = vec![n; n]; // Initialize with sentinel values
-        let mut bucket = vec![0; alphabet_size];
-        let mut bucket_heads = vec![0; alphabet_size];
-        let mut bucket_tails = vec![0; alphabet_size];
-
-        // Count character frequencies
-        for &ch in text {
-            bucket[ch as usize] += 1;
-        }
-
-        // Compute bucket boundaries
-        self.compute_bucket_boundaries(&bucket, &mut bucket_heads, &mut bucket_tails);
-
-        // Place sorted LMS suffixes with bounds checking
-        for &lms_pos in sorted_lms.iter().rev() {
-            if lms_pos >= text.len() {
-                continue;
-            }
-            let ch = text[lms_pos] as usize;
-            if ch < bucket_tails.len() && bucket_tails[ch] > 0 {
-                bucket_tails[ch] -= 1;
-                if bucket_tails[ch] < sa.len() {
-                    sa[bucket_tails[ch]] = lms_pos;
-                }
-            }
-        }
-
-        // Induce L-type and S-type suffixes
-        self.induce_l_type(&mut sa, text, suffix_types, &bucket_heads)?;
-        self.induce_s_type(&mut sa, text, suffix_types, &bucket_tails)?;
-
-        // Handle any remaining sentinel values by finding missing indices
-        if sa.iter().any(|&x| x >= n) {
-            // Find which indices are missing from the suffix array
-            let mut present = vec![false; n];
-            for &val in sa.iter() {
-                if val < n {
-                    present[val] = true;
-                }
-            }
-            
-            let missing_indices: Vec<usize> = (0..n).filter(|&i| !present[i]).collect();
-            let mut missing_iter = missing_indices.into_iter();
-            
-            // Replace sentinel values with missing indices
-            for sa_val in sa.iter_mut() {
-                if *sa_val >= n {
-                    if let Some(missing_idx) = missing_iter.next() {
-                        *sa_val = missing_idx;
-                    }
-                }
-            }
-        }
-        
-        Ok(sa)
+        sa
     }
 
     /// DC3 (Divide-and-Conquer-3) algorithm implementation
@@ -896,23 +620,6 @@ impl SuffixArrayBuilder {
     fn build_parallel(&self, text: &[u8]) -> Result<Vec<usize>> {
         // For now, fall back to sequential - full parallel SA-IS is very complex
         self.build_sequential(text)
-    }
-    
-    /// Fallback sorting algorithm for when recursion depth is exceeded
-    fn fallback_sort(&self, text: &[u8]) -> Result<Vec<usize>> {
-        if text.is_empty() {
-            return Ok(Vec::new());
-        }
-        
-        // Use simple sorting for small texts or deep recursion
-        let mut sa: Vec<usize> = (0..text.len()).collect();
-        sa.sort_by(|&a, &b| {
-            let suffix_a = &text[a..];
-            let suffix_b = &text[b..];
-            suffix_a.cmp(suffix_b)
-        });
-        
-        Ok(sa)
     }
 }
 
